@@ -19,7 +19,7 @@ Fixpoint reload_ok (n : node) : bool :=
                 match l with [] => true | kv :: r => match kv with (_, v) => reload_ok v && go r end end) in
   match n with
   | NPrior _ fam _ _ _ _ => negb (is_log_gaussian fam) || log_gaussian_dict
-  | NFloat _ | NInt _ | NBool _ | NStr _ | NNone => true
+  | NFloat _ | NInt _ | NBool _ | NStr _ | NNone | NOther _ => true
   | NTuple _ ms => all ms
   | NBinop _ _ _ _ l r => reload_ok l && reload_ok r
   | NUnop _ _ _ _ => false
@@ -71,7 +71,7 @@ Proof. reflexivity. Qed.
 
 Lemma reload_same : forall n, reloads_same n.
 Proof.
-  induction n as [pid fam lo hi m s|v|z|b|s| |mid ms IH|mid c ln rn l r IHl IHr|mid c pn a IHa
+  induction n as [pid fam lo hi m s|v|z|b|s| |dd|mid ms IH|mid c ln rn l r IHl IHr|mid c pn a IHa
                  |mid lbl cls cargs attrs IH|mid k attrs IH|c cargs ex attrs IH|c fs attrs IH] using node_ind';
     intro H; try (eexists; split; reflexivity).
   - (* prior *)
